@@ -428,6 +428,15 @@ def inferDefault (p : GParam) (v : Dflt) : R GParam :=
     let p := if !isNoneStr v && codeQuoted v && !((p.typ.getD []).contains '[') then { p with typ := none } else p
     .ok { p with default := some v }
 
+/-- names the tables of `parse_utils.py` can propose and that evaluate in the namespace of `docstring_parsers.py`
+    (builtins, `from typing import *`, `import collections`) -/
+def evalKnown : List Str := [g!"bool", g!"dict", g!"str", g!"float", g!"int", g!"list", g!"complex", g!"Tuple", g!"List", g!"Mapping",
+  g!"collections.abc.Callable"]
+/-- does `eval(typ)` succeed?  `true` only on the whitelisted shapes `T` and `Optional[T]`; everything else is left to the real code -/
+def evalSucceeds (t : Str) : Bool :=
+  evalKnown.contains t ||
+  (startsWith t g!"Optional[" && endsWith t [']'] && evalKnown.contains ((t.drop 9).dropLast))
+
 def optionalOf (t : Str) : Str := optionalPrefix ++ t ++ [']']
 def sGoogleOpt : Str := g!", optional"
 
@@ -475,10 +484,17 @@ def sntParam (name : Str) (p0 : GParam) (listDoc : Bool) : R GParam :=
         let doc := if listDoc then rstrip doc else rstrip (join [' '] ((split1 doc '\n').map strip))
         let p := { p with doc := some doc }
         let defIsNone := match p.default with | some d => isNoneStr d | none => false
-        match Adhoc.adhocStr doc (sntName name) defIsNone with
-        | .error e => .raises e
-        | .ok (some _) => .outside "parse_adhoc_doc_for_typ proposes a type (eval)"
-        | .ok none =>
+        let adhoc : R GParam := match Adhoc.adhocStr doc (sntName name) defIsNone with
+          | .error e => .raises e
+          | .ok none => .ok p
+          | .ok (some t) =>
+            -- `eval(typ, globals(), locals())`; on success `_param["typ"] = typ`
+            if evalSucceeds t then .ok { p with typ := some t }
+            else .outside "parse_adhoc_doc_for_typ proposes a type whose eval is not modelled"
+        match adhoc with
+        | .raises e => .raises e
+        | .outside w => .outside w
+        | .ok p =>
           match p.typ with
           | some t =>
             if (startsWith doc g!"(Optional)" || startsWith doc g!"Optional" || wasNone) && !startsWith t optionalPrefix
